@@ -215,3 +215,74 @@ func VH_invalidate_active_block() {
 		vAssert(b.bestChain.Tip() == newBase || b.bestChain.Tip() == sideTip, "on a tie the tip is one of the most-work valid tips")
 	}
 }
+
+// Go's map iteration order is arbitrary, so the order in which InactiveTips lists the side-chain tips is
+// environment: the stub lists the same tips (recomputed, sorted by label) rotated by an arbitrary amount.
+func vStubInactiveTips(bi *blockIndex, bestChain *chainView) []*blockNode {
+	var tips []*blockNode
+	for _, n := range bi.index {
+		if bestChain.Contains(n) {
+			continue
+		}
+		isParent := false
+		for _, m := range bi.index {
+			if m.parent == n && !bestChain.Contains(m) {
+				isParent = true
+			}
+		}
+		if !isParent {
+			tips = append(tips, n)
+		}
+	}
+	for i := 0; i < len(tips); i++ { // selection sort by (label, height): deterministic whatever the map order
+		for j := i + 1; j < len(tips); j++ {
+			if tips[j].hash[0] < tips[i].hash[0] || (tips[j].hash[0] == tips[i].hash[0] && tips[j].hash[1] < tips[i].hash[1]) {
+				tips[i], tips[j] = tips[j], tips[i]
+			}
+		}
+	}
+	if len(tips) < 2 {
+		return tips
+	}
+	r := vNondetLen("tipOrder", len(tips)-1)
+	return append(append([]*blockNode{}, tips[r:]...), tips[:r]...)
+}
+
+// C02(4'): ReconsiderBlock when the reconsidered block has TWO descendant branches: whatever order the tips are
+// listed in, the node ends on the most-work chain that again includes the block (or stays when the active chain has
+// at least as much work).
+//verif:opts reach=stay,reorg noverride=chain.go:BlockChain.reorganizeChain:vStubReorganizeChain;blockindex.go:blockIndex.flushToDB:vStubFlushIndex;chain.go:BlockChain.verifyReorganizationValidity:vStubVerifyReorg;blockindex.go:blockIndex.InactiveTips:vStubInactiveTips
+func VH_reconsider_block_two_branches() {
+	vSwReset()
+	b := &BlockChain{index: newBlockIndex(nil, &chaincfg.Params{})}
+	common := vMkWorkNodes(b, nil, 2, 1)
+	fork := common[len(common)-1]
+	main := vMkWorkNodes(b, fork, 1+vNondetLen("mainLen", 1), 2)
+	target := vMkWorkNodes(b, fork, 1, 3)[0]
+	brA := vMkWorkNodes(b, target, 1+vNondetLen("aLen", 1), 4)
+	brB := vMkWorkNodes(b, target, 1, 5)
+	b.bestChain = newChainView(main[len(main)-1])
+	oldTip := b.bestChain.Tip()
+	target.status = statusDataStored | statusValidateFailed
+	for _, n := range append(append([]*blockNode{}, brA...), brB...) {
+		n.status = statusDataStored | statusInvalidAncestor
+	}
+	err := b.ReconsiderBlock(&target.hash)
+	vAssert(err == nil, "reconsidering succeeds")
+	tipA, tipB := brA[len(brA)-1], brB[0]
+	best := tipA
+	if tipB.workSum.Cmp(tipA.workSum) > 0 {
+		best = tipB
+	}
+	vAssert(!target.status.KnownInvalid() && !tipA.status.KnownInvalid() && !tipB.status.KnownInvalid(), "both branches are valid again")
+	if best.workSum.Cmp(oldTip.workSum) > 0 {
+		vAssert(vSw.reorgs == 1, "a reconsidered branch with more work than the active chain becomes active")
+		if tipA.workSum.Cmp(tipB.workSum) != 0 {
+			vAssert(b.bestChain.Tip() == best, "and it is the most-work branch through the reconsidered block")
+		}
+		vReach("reorg")
+	} else {
+		vAssert(vSw.reorgs == 0 && b.bestChain.Tip() == oldTip, "the active chain stays when no reconsidered branch has more work")
+		vReach("stay")
+	}
+}
